@@ -174,4 +174,130 @@ theorem quantizeRel_perm (R : Rat → Rat) (c dq : Rat) (spq : Int) {s s' : Note
         · exact h.subEnd
         · exact h.tpq
         · exact h.metaTag
+
+/-! ## "the first stored tempo" is immaterial — and why the validation must compare exactly
+
+`quantize_note_sequence` keeps `qns.tempos[0]` (the first STORED tempo) with its time reset to 0 and deletes the rest.
+That is storage-order independent only because the validation before it accepts nothing but exactly equal qpm values:
+when it accepts, EVERY stored tempo (time reset) is the kept tempo.  A validation with a tolerance (near-equal tempos are
+"no tempo change") in front of the same `tempos[0]` is storage-order dependent: `tempo_tolerance_depends_on_order`. -/
+
+/-- when the tempo validation accepts, every stored tempo with its time reset to 0 is the tempo kept -/
+theorem checkTempos_kept_is_every_stored (dq : Rat) (ts : List Tempo) (tp : Tempo)
+    (h : checkTempos dq ts = .ok tp) : ∀ t ∈ ts, ({ t with time := 0 } : Tempo) = tp := by
+  cases ts with
+  | nil => intro t ht; cases ht
+  | cons first rest =>
+    rcases checkTempos_spec dq first rest with ⟨_, e⟩ | ⟨h1, _, e⟩
+    · rw [e] at h; cases h
+    · rw [e] at h
+      cases h
+      intro t ht
+      have : t.qpm = first.qpm := by
+        apply Classical.byContradiction
+        intro hh
+        exact h1 ⟨t, ht, first, by simp, hh⟩
+      cases t; cases first; simp_all
+
+/-- the same for time signatures -/
+theorem checkTimeSigs_kept_is_every_stored (tss : List TimeSig) (ts : TimeSig)
+    (h : checkTimeSigs tss = .ok ts) : ∀ t ∈ tss, ({ t with time := 0 } : TimeSig) = ts := by
+  cases tss with
+  | nil => intro t ht; cases ht
+  | cons first rest =>
+    rcases checkTimeSigs_spec first rest with ⟨_, e⟩ | ⟨h1, _, e⟩
+    · rw [e] at h; cases h
+    · rw [e] at h
+      cases h
+      intro t ht
+      have : sameSig t first := by
+        apply Classical.byContradiction
+        intro hh
+        exact h1 ⟨t, ht, first, by simp, hh⟩
+      unfold sameSig at this
+      cases t; cases first; simp_all
+
+def ratAbs (x : Rat) : Rat := if x < 0 then -x else x
+
+/-- `checkTempos` with a relative tolerance in the comparison (Python `math.isclose(a, b, rel_tol=tol)`:
+`|a-b| <= tol * max(|a|, |b|)`) and the same "keep the first stored tempo" afterwards -/
+def checkTemposTol (tol defaultQpm : Rat) (ts : List Tempo) : Except Err Tempo :=
+  match ts with
+  | [] => .ok ⟨0, defaultQpm⟩
+  | first :: _ =>
+    match sortByRat (·.time) ts with
+    | [] => .ok ⟨0, defaultQpm⟩
+    | e :: later =>
+      if e.time ≠ 0 ∧ e.qpm ≠ defaultQpm then .error .multipleTempoError
+      else if later.any (fun t => decide (¬ ratAbs (t.qpm - e.qpm) ≤ tol * max (ratAbs t.qpm) (ratAbs e.qpm)))
+        then .error .multipleTempoError
+      else .ok { first with time := 0 }
+
+def exNearTempos : List Tempo := [⟨0, 120⟩, ⟨6, 12000001 / 100000⟩]
+def exNearTempos' : List Tempo := [⟨6, 12000001 / 100000⟩, ⟨0, 120⟩]
+
+theorem exNearTempos_sorted : sortByRat (·.time) exNearTempos = exNearTempos := by
+  unfold sortByRat
+  apply List.mergeSort_of_pairwise
+  decide +kernel
+
+theorem exNearTempos'_sorted : sortByRat (·.time) exNearTempos' = exNearTempos := by
+  have h := sortByRat_facts (·.time) exNearTempos'
+  generalize sortByRat (·.time) exNearTempos' = l at h
+  obtain ⟨hp, hs⟩ := h
+  have hl := hp.length_eq
+  match l, hl with
+  | [x, y], _ =>
+    have hx : x ∈ [x, y] := by simp
+    have hy : y ∈ [x, y] := by simp
+    rw [hp.mem_iff] at hx hy
+    simp [exNearTempos'] at hx hy hs
+    have hn := hp.nodup_iff.mpr (by decide +kernel)
+    simp at hn
+    rcases hx with rfl | rfl <;> rcases hy with rfl | rfl <;> simp_all [exNearTempos]
+    all_goals (revert hs; decide +kernel)
+
+/-- two tempo marks 8.3e-8 relative apart, tolerance 1e-6: accepted in both storage orders, but the tempo kept (and with
+it the steps-per-second of the whole quantization) is the first STORED one — the result depends on storage order -/
+theorem tempo_tolerance_depends_on_order :
+    exNearTempos.Perm exNearTempos' ∧
+    checkTemposTol (1 / 1000000) 120 exNearTempos = .ok ⟨0, 120⟩ ∧
+    checkTemposTol (1 / 1000000) 120 exNearTempos' = .ok ⟨0, 12000001 / 100000⟩ ∧
+    (⟨0, 120⟩ : Tempo) ≠ ⟨0, 12000001 / 100000⟩ := by
+  refine ⟨List.Perm.swap _ _ _, ?_, ?_, by decide +kernel⟩
+  · show (match sortByRat (·.time) exNearTempos with | [] => _ | e :: later => _) = _
+    rw [exNearTempos_sorted]
+    decide +kernel
+  · show (match sortByRat (·.time) exNearTempos' with | [] => _ | e :: later => _) = _
+    rw [exNearTempos'_sorted]
+    decide +kernel
+
+/-- the exact validation (the model of the code) rejects the same input in both storage orders -/
+theorem tempo_exact_rejects_both_orders :
+    checkTempos 120 exNearTempos = .error .multipleTempoError ∧
+    checkTempos 120 exNearTempos' = .error .multipleTempoError := by
+  constructor
+  · show (match sortByRat (·.time) exNearTempos with | [] => _ | e :: later => _) = _
+    rw [exNearTempos_sorted]
+    decide +kernel
+  · show (match sortByRat (·.time) exNearTempos' with | [] => _ | e :: later => _) = _
+    rw [exNearTempos'_sorted]
+    decide +kernel
+
+/-- non-vacuity of `checkTempos_kept_is_every_stored` / `checkTimeSigs_kept_is_every_stored`: the hypothesis holds on
+lists with several entries stored out of time order (`checkTempos_ok` / `checkTimeSigs_ok` of C01 on these inputs) -/
+example : ∃ tp, checkTempos 120 ([⟨2, 90⟩, ⟨0, 90⟩, ⟨1, 90⟩] : List Tempo) = .ok tp := by
+  rcases checkTempos_spec 120 ⟨2, 90⟩ [⟨0, 90⟩, ⟨1, 90⟩] with ⟨h, _⟩ | ⟨_, _, e⟩
+  · exfalso
+    rcases h with ⟨a, ha, b, hb, hab⟩ | ⟨e, he, hmin, h0, _⟩
+    · simp at ha hb
+      rcases ha with rfl | rfl | rfl <;> rcases hb with rfl | rfl | rfl <;> exact hab rfl
+    · simp at he
+      have := hmin ⟨0, 90⟩ (by simp)
+      rcases he with rfl | rfl | rfl
+      · exact absurd this (by decide +kernel)
+      · exact h0 rfl
+      · exact absurd this (by decide +kernel)
+  · exact ⟨_, e⟩
+
 end NSV.C12
